@@ -117,6 +117,11 @@ type PObj struct {
 	// stanza on every write to the main resource and answers with the stored object, so nothing the
 	// probes see may ever come from it (the model does not read the field).
 	Status string `json:"status,omitempty"`
+	// MAnn are annotations / labels in PKO's own namespace that the MANIFEST itself carries (exported from
+	// a live cluster with them left in): "" = none, otherwise "<revision>" — the manifest carries
+	// package-operator.run/revision=<revision> and package-operator.run/cache=False.  What PKO writes is its
+	// own value, whatever the manifest says (the model does not read the field).
+	MAnn string `json:"mann,omitempty"`
 }
 
 // ManifestStatus builds the `.status` stanza of a manifest from PObj.Status (nil for "").
@@ -339,6 +344,10 @@ func (p PObj) Build() corev1alpha1.ObjectSetObject {
 	u.Object["spec"] = map[string]interface{}{"v": p.Payload}
 	if st := ManifestStatus(p.Status); st != nil {
 		u.Object["status"] = st
+	}
+	if p.MAnn != "" {
+		u.SetAnnotations(map[string]string{"package-operator.run/revision": p.MAnn})
+		u.SetLabels(map[string]string{"package-operator.run/cache": "False"})
 	}
 	if p.Preset {
 		u.SetOwnerReferences([]metav1.OwnerReference{{APIVersion: "v1", Kind: "ConfigMap", Name: "preset", UID: "u-preset"}})
